@@ -3,22 +3,24 @@ T = lambda q, t: {"quick": q, "thorough": t}
 SPEC = dict(
     level="fault_enumeration",
     technique="enumerated file faults (main x notebook x backup) x retry configurations through the real LoadDatabaseWithFallback, attempts and waits counted exactly by an observer hook inside the retry loop",
-    level_text="Every combination of {valid, empty list, 0 bytes, missing, permission-denied, directory, dangling symlink, symlink loop, unsearchable parent "
-               "directory, malformed YAML, wrong shape, binary garbage} on the main and the notebook file and {missing, valid, malformed, empty list, 0 bytes} on the backup is created on disk (12x12x5 = 720 "
+    level_text="Every combination of {valid, valid as UTF-16 with a byte-order mark, empty list, 0 bytes, missing, permission-denied, directory, dangling symlink, symlink loop, unsearchable parent "
+               "directory, malformed YAML, wrong shape, binary garbage} on the main and the notebook file and {missing, valid, malformed, empty list, 0 bytes} on the backup is created on disk (13x13x5 = 720 "
                "combinations, each under 2 (quick) / 6 (thorough) of 180 retry configurations), plus transient faults repaired when the observer "
                "reports attempt j, plus steep back-off configurations whose product overflows int64 (every wait must still lie in [previous, maximum]), plus the default configuration. The returned (database, error), its searchability, which database it is, the "
                "number of load attempts and every requested wait are checked against the statement. Permission faults are real: the shard re-executes "
                "itself under setpriv as uid 65534. Loadable files are also made large (just below and above 1, 4, 8, 16 MiB; thorough 32, 64 MiB; main or "
                "notebook) and reached through path spellings (./, //, sub/../, and link/../ through a symbolic link to a directory, where the file meant is "
-               "not the one a lexical clean-up names, with and without a decoy database at the lexical location): the real database must come back.",
+               "not the one a lexical clean-up names, with and without a decoy database at the lexical location): the real database must come back. "
+               "The returned database belongs to the caller: after seven kinds of changes to an earlier fallback result (replace through the caching wrapper, edit, "
+               "append, empty, truncate) the next load that falls back must again be the pristine built-in database.",
     level_note="Attempts and waits are observed by the verif hook (before time.Sleep), never inferred from wall-clock time. BackoffFactor < 1 is not a back-off and is excluded.",
     engines=[dict(name="loadfaults", shards=T(16, 16), timeout=T(900, 3600))],
     rule="case = (main fault, notebook fault, backup fault, retry configuration, transient-repair point); every case is non-trivial (each creates real files and drives the real loader); "
          "distinct by the tuple.",
     floors=T({"permission-faults-exercised": 80, "retried": 100, "multi-wait-sequences": 30, "transient": 100, "steep-backoff-configs": 20, "returned-real": 50, "returned-fallback": 300,
-              "distinct_nontrivial": 600, "large-files-over-8MiB": 6, "path-spellings-through-symlink": 6},
+              "distinct_nontrivial": 600, "large-files-over-8MiB": 6, "path-spellings-through-symlink": 6, "fallback-isolation-cases": 7, "main:valid-utf16": 50},
              {"permission-faults-exercised": 300, "retried": 400, "multi-wait-sequences": 100, "transient": 100, "steep-backoff-configs": 20, "returned-real": 150, "returned-fallback": 1000,
-              "distinct_nontrivial": 1800, "large-files-over-8MiB": 12, "path-spellings-through-symlink": 6}),
+              "distinct_nontrivial": 1800, "large-files-over-8MiB": 12, "path-spellings-through-symlink": 6, "fallback-isolation-cases": 7, "main:valid-utf16": 150}),
     assumptions=["a non-positive configured number of attempts is read as one attempt (and either the real database or the fallback is accepted, never nil/error)",
                  "a dangling symlink as notebook may be read as absent or as broken",
                  "the backup rung is never reached because the embedded rung always succeeds; backup faults are enumerated for totality only"],
